@@ -15,7 +15,9 @@ from checks import c10
 LEXEMES = ["CREATE", "TABLE", "INDEX", "UNIQUE", "t", "(", ")", ",", "a", "b INTEGER", "PRIMARY KEY", "DESC", "COLLATE", "nocase",
            "'", "'it''s'", "\"", "\"q\"", "[", "[x]", "`", "é", "ñame", "日本", "1e", "0x", "0xFFFFFFFFFFFFFFFFFF", "99999999999999999999", "1.5e+",
            ".", "-", "+", "*", ">", ">=", "!", "|", "||", "DEFAULT", "NULL", "CHECK", "WHERE", "ON", "SELECT", "FROM", "WITHOUT ROWID",
-           "REFERENCES", "\x00", "\t", "--", "/*", ";"]
+           "REFERENCES", "\x00", "\t", "--", "/*", ";",
+           # characters above 0x7f that are not letters, and bytes that are not UTF-8 at all
+           "\u20ac", "\U0001F600", "\u0663", "\ufffd", "\u00a0", "\u2028", b"\xff", b"\xc3", b"\xe6\x97", b"\xf0\x9f\x98", b"\x80"]
 
 
 EXPR_STATEMENTS = [
@@ -59,13 +61,17 @@ def inputs(tier, rnd, stored):
         if s not in seen:
             seen.add(s)
             out.append(s)
+    def join(sep, seq):
+        if any(isinstance(x, bytes) for x in seq):
+            return sep.encode().join(x if isinstance(x, bytes) else x.encode() for x in seq)
+        return sep.join(seq)
     for n in (1, 2):
         for seq in itertools.product(LEXEMES, repeat=n):
-            add(" ".join(seq))
+            add(join(" ", seq))
     k3 = 6000 if tier == "quick" else 120000
     for _ in range(k3):
         n = rnd.choice([3, 4, 4, 5, 7])
-        add(rnd.choice([" ", "", " "]).join(rnd.choice(LEXEMES) for _ in range(n)))
+        add(join(rnd.choice([" ", "", " "]), [rnd.choice(LEXEMES) for _ in range(n)]))
     # statements with expressions (index expressions, partial indexes, CHECK / DEFAULT expressions) that real SQLite accepts
     exprs = [s for s in EXPR_STATEMENTS if sqlite_accepts(s)]
     base = exprs + stored[: (40 if tier == "quick" else 400)]
@@ -84,20 +90,53 @@ def inputs(tier, rnd, stored):
                 else:
                     b.insert(p, rnd.choice(b"'\"[`(,)\xe6\x97\xa5"))
             add(b.decode("utf-8", "replace"))
+            if rnd.random() < 0.3:
+                add(bytes(b))                  # the same bytes undecoded (may be invalid UTF-8)
     return out
+
+
+HUNG = []       # inputs on which a parse call did not return (this run)
 
 
 def parse_all(h, d, strs, tag, reverse=False):
     order = list(range(len(strs)))
     if reverse:
         order.reverse()
-    req, out = os.path.join(d, tag + "-req.ndjson"), os.path.join(d, tag + "-res.ndjson")
-    common.write_ndjson(req, [{"op": "sqlparse", "sql": strs[i], "id": i} for i in order])
-    rc, txt, _ = common.run(["timeout", "600", h, "calls", req, out], timeout=700)
+    # note: with `reverse` the ids are positions in strs; the request order is `order`
     res = {}
-    if os.path.exists(out):
-        for r in common.read_ndjson(out):
-            res[r["id"]] = r
+    pending = list(order)
+    rounds = 0
+    rc = 0
+    if len(HUNG) >= 6:
+        return {i: {"skipped": True} for i in order}, 0
+    while pending:
+        rounds += 1
+        req, out = os.path.join(d, "%s-req%d.ndjson" % (tag, rounds)), os.path.join(d, "%s-res%d.ndjson" % (tag, rounds))
+        common.write_ndjson(req, [dict({"op": "sqlparse", "id": i}, **({"hex": strs[i].hex()} if isinstance(strs[i], bytes) else {"sql": strs[i]})) for i in pending])
+        # address space capped: a parser that loops while allocating must die, not the machine; a call that does not
+        # return within the harness's deadline ends the process too (exit 3) -- both are restarted after the culprit
+        rc, txt, _ = common.run(["sh", "-c", 'ulimit -v 8388608; exec timeout 600 "$0" calls "$1" "$2"', h, req, out], timeout=700)
+        got = {}
+        if os.path.exists(out):
+            for r in common.read_ndjson(out):
+                got[r["id"]] = r
+        culprit = None
+        for i in pending:
+            if i in got and not got[i].get("timeout"):
+                res[i] = got[i]
+            else:
+                culprit = i
+                break
+        if culprit is None:
+            break
+        # res[culprit] stays missing: reported as a call that did not return
+        HUNG.append(strs[culprit])
+        pending = pending[pending.index(culprit) + 1:]
+        if len(HUNG) >= 6:
+            # enough evidence; the rest of the strings is not run (and not judged) in this run
+            for i in pending:
+                res[i] = {"skipped": True}
+            break
     return res, rc
 
 
@@ -110,6 +149,7 @@ def canon(r):
 
 
 def run(tier):
+    del HUNG[:]
     v = common.Verdict("C16", tier)
     rnd = random.Random(common.seed())
     h = common.build_harness()
@@ -143,8 +183,12 @@ def run(tier):
         for k, x in rr.items():
             r3[a + k] = x
     lines = []
+    kept = []
     for i, s in enumerate(strs):
         a, b, c = r1.get(i), r2.get(i), r3.get(i)
+        if any(x is not None and x.get("skipped") for x in (a, b, c)):
+            continue
+        kept.append(i)
         lines.append({"id": i, "r1": canon(a), "r2": canon(b), "r3": canon(c),
                       "panic": any(x is not None and bool(x.get("panic")) for x in (a, b, c)),
                       "timeout": any(x is None for x in (a, b, c))})
@@ -158,12 +202,33 @@ def run(tier):
     if verdict["n"] != len(lines):
         raise Infra("TLC consumed %s of %d parse events" % (verdict["n"], len(lines)))
     for b in verdict["bad"]:
-        s = strs[b["i"] - 1]
+        s = strs[kept[b["i"] - 1]]
         ln = lines[b["i"] - 1]
         why = "+".join(sorted(b["why"]))
-        detail = (r1.get(b["i"] - 1) or {}).get("panic") or (r2.get(b["i"] - 1) or {}).get("panic") or ""
+        detail = (r1.get(kept[b["i"] - 1]) or {}).get("panic") or (r2.get(kept[b["i"] - 1]) or {}).get("panic") or ""
         v.report("C16:%s:%s" % (why, detail[:60]), "sql.Parse(%r): %s %s" % (s[:200], why, detail[:200]),
-                 lambda s=s, ln=ln: common.write_replay("C16", "input-%d.json" % ln["id"], {"sql": s, "results": [ln["r1"][:300], ln["r2"][:300], ln["r3"][:300]]}))
+                 lambda s=s, ln=ln: common.write_replay("C16", "input-%d.json" % ln["id"], {"sql": s if isinstance(s, str) else {"hex": s.hex()}, "results": [ln["r1"][:300], ln["r2"][:300], ln["r3"][:300]]}))
+    # ---- the same answers when several goroutines parse at the same time (the driver and every handle parse on their own)
+    corpus = [x for x in stored if isinstance(x, str)][: (600 if tier == "quick" else 6000)] + [x for x in EXPR_STATEMENTS]
+    if not HUNG:          # (with inputs that do not return the concurrent phase would only wait for its deadline)
+        corpus += [x for x in strs if isinstance(x, str)][:: max(1, len(strs) // (400 if tier == "quick" else 4000))]
+    preq, pout = os.path.join(d, "par-req.json"), os.path.join(d, "par-res.json")
+    json.dump({"sql": corpus, "goroutines": 8 if tier == "quick" else 16, "rounds": 2 if tier == "quick" else 10, "seed": common.seed()}, open(preq, "w"))
+    import subprocess
+    hrace = common.build_harness(race=True)
+    p = subprocess.run([hrace, "parsepar", preq, pout], stdout=subprocess.PIPE, stderr=subprocess.PIPE, timeout=1500,
+                       env=dict(os.environ, GORACE="halt_on_error=0 exitcode=66"))
+    perr = p.stderr.decode("utf-8", "replace")
+    if p.returncode not in (0, 4, 66) or not os.path.exists(pout):
+        raise common.harness_failure(perr, "concurrent parse run (rc=%d)" % p.returncode)
+    par = json.load(open(pout))
+    nraces = perr.count("WARNING: DATA RACE")
+    v.cov["concurrent_parse"] = {"strings": len(corpus), "calls": par["calls"], "differ": par["differ"], "race_reports": nraces, "hung": par["hung"]}
+    if par["differ"] or nraces or par["hung"]:
+        v.report("C16:deterministic:concurrent", "parsing from %d goroutines at once: %d of %d calls returned something else than the same string parsed alone, "
+                 "%d data race reports%s; first: %s" % (8 if tier == "quick" else 16, par["differ"], par["calls"], nraces, ", goroutines hung" if par["hung"] else "",
+                                                       json.dumps(par["first"][:1])[:500]),
+                 lambda: common.write_replay("C16", "concurrent-parse.json", {"result": par, "race": perr[perr.find("WARNING: DATA RACE"):][:3000]}))
     v.cov["strings_parsed"] = len(strs)
     v.cov["traces_validated_against_impl"] = len(events) + len(strs)
     v.cov["evaluations"] = len(events) + len(strs)
@@ -173,8 +238,8 @@ def run(tier):
                      "prefix and seeded byte mutations of stored statements, each parsed 3 times (two call orders, fresh process). "
                      "non-trivial = distinct column-constraint sequences and table-constraint shapes seen")
     v.sample({"locality": info[0]["sql"]})
-    v.sample({"strings": strs[60:64] + strs[-3:]})
-    v.assumptions += ["SQLite 3.40.1 accepted every statement used for locality", "a hang is detected by the 600 s budget of a whole batch"]
+    v.sample({"strings": [x if isinstance(x, str) else {"hex": x.hex()} for x in strs[60:64] + strs[-3:]]})
+    v.assumptions += ["SQLite 3.40.1 accepted every statement used for locality", "a call that does not return within 4 s (or exhausts 8 GB of address space) ends the harness process and is reported as not total"]
     return v.finish()
 
 
